@@ -88,3 +88,202 @@ Lemma any_enabled_false : forall s, any_enabled s = false -> s_enabled s = (fals
 Proof.
   intros s H. unfold any_enabled in H. destruct (s_enabled s) as [[a b] c]. destruct a, b, c; try discriminate. reflexivity.
 Qed.
+
+(* the enabled classes change by the ENABLE/DISABLE_UNSOLICITED request of the current event only *)
+Definition changed_by (cfg : ocfg) (ev : oevent) (e0 e1 : bool * bool * bool) : Prop :=
+  exists from bc bytes ctl fn hdrs rh,
+    ev = ERx from bc bytes (DOk ctl fn RvOk (ObjOk hdrs rh)) /\ o_unsol cfg = true /\ (fn = 20 \/ fn = 21) /\
+    e1 = set_classes (fn =? 20) hdrs e0.
+
+Lemma en_step_cases : forall cfg ev x x',
+  pend_ok (Some ev) x -> en_step cfg (Some ev) x x' ->
+  s_enabled x' = s_enabled x \/ changed_by cfg ev (s_enabled x) (s_enabled x').
+Proof.
+  intros cfg ev x x' Hp [H|(from & bc & bytes & d & Hsrc & Hen)]; [left; exact H|].
+  pose proof (frag_src_event _ _ _ _ _ _ Hp Hsrc) as E. inversion E; subst.
+  destruct Hen as [H|(ctl & fn & hdrs & rh & -> & Hu & Hf & He)]; [left; exact H|].
+  right. exists from, bc, bytes, ctl, fn, hdrs, rh. repeat split; auto.
+Qed.
+
+Lemma changed_twice : forall cfg ev e0 e1 e2,
+  changed_by cfg ev e0 e1 -> changed_by cfg ev e1 e2 -> changed_by cfg ev e0 e2.
+Proof.
+  intros cfg ev e0 e1 e2 (f & b & y & c & fn & h & r & E1 & Hu & Hf & ->) (f' & b' & y' & c' & fn' & h' & r' & E2 & _ & _ & ->).
+  rewrite E1 in E2. inversion E2; subst. rewrite set_classes_idem.
+  exists f', b', y', c', fn', h', r'. repeat split; auto.
+Qed.
+
+Definition en_rel (cfg : ocfg) (ev : oevent) (s x : ostate) : Prop :=
+  s_enabled x = s_enabled s \/ changed_by cfg ev (s_enabled s) (s_enabled x).
+
+Lemma en_rel_step : forall cfg ev s x x',
+  en_rel cfg ev s x -> pend_ok (Some ev) x -> en_step cfg (Some ev) x x' -> en_rel cfg ev s x'.
+Proof.
+  intros cfg ev s x x' Hr Hp He. destruct (en_step_cases _ _ _ _ Hp He) as [E|Hc].
+  - destruct Hr as [Hr|Hr]; [left; congruence|right; rewrite E; exact Hr].
+  - destruct Hr as [Hr|Hr]; [right; rewrite <- Hr; exact Hc|right; eapply changed_twice; eauto].
+Qed.
+
+Lemma en_rel_same : forall cfg ev s x x', en_rel cfg ev s x -> s_enabled x' = s_enabled x -> en_rel cfg ev s x'.
+Proof. intros cfg ev s x x' [H|H] E; [left; congruence|right; rewrite E; exact H]. Qed.
+
+(* what a micro-step does to the reader's fragment and the enabled classes, uniformly *)
+Lemma ustep_pend_en : forall cfg ev x o x',
+  ustep cfg (Some ev) x o x' -> pend_ok (Some ev) x ->
+  pend_ok (Some ev) x' /\ en_step cfg (Some ev) x x'.
+Proof.
+  intros cfg ev x o x' H Hp.
+  assert (Hsame : s_pending x' = s_pending x -> pend_ok (Some ev) x').
+  { intros E from bc bytes d fid Hx. eapply Hp. rewrite <- E. exact Hx. }
+  destruct H.
+  - destruct H as [_ Hb He]. split; [auto|exact He].
+  - destruct H2 as (r & o1 & _ & _ & _ & _ & _ & _ & _ & _ & _ & _ & _ & Hpe & Hen & _). split; [auto|left; exact Hen].
+  - destruct H6 as (r & o1 & _ & _ & _ & _ & _ & _ & _ & _ & _ & _ & _ & Hpe & Hen & _). split; [auto|left; exact Hen].
+  - split; [auto|left; congruence].
+  - destruct H8 as [_ Hb He]. split; [auto|exact He].
+  - subst x'. split; [apply Hsame; reflexivity|left; reflexivity].
+  - split; [apply Hsame; congruence|left; congruence].
+  - subst x'. split; [apply Hsame; reflexivity|left; reflexivity].
+  - subst x'. split; [apply Hsame; reflexivity|left; reflexivity].
+  - subst x'. split; [apply pend_ok_none; reflexivity|left; reflexivity].
+  - subst x'. split; [exact Hp|left; reflexivity].
+Qed.
+
+(* 3b/3c: the classes given to the database are the enabled ones *)
+Definition classes_ok (cfg : ocfg) (ev : oevent) (s : ostate) (o : oobs) : Prop :=
+  match o with
+  | ODb (DbWriteUnsol c1 c2 c3) =>
+      (c1, c2, c3) = s_enabled s \/ changed_by cfg ev (s_enabled s) (c1, c2, c3)
+  | _ => True
+  end.
+
+Lemma qob_classes_ok : forall cfg ev s l, Forall qob l -> Forall (classes_ok cfg ev s) l.
+Proof.
+  intros cfg ev s l H. eapply Forall_impl; [|exact H]. intros o [Ho| ->]; [|exact I].
+  destruct o; try exact I. destruct c; try exact I. destruct Ho.
+Qed.
+
+Lemma started_classes_ok : forall cfg ev s0 s s' n size buf o,
+  started cfg s s' n size buf o -> Forall (classes_ok cfg ev s0) o.
+Proof.
+  intros cfg ev s0 s s' n size buf o (r & o1 & -> & Ho1 & _).
+  apply Forall_app. split; [apply qob_classes_ok; eapply Forall_impl; [|exact Ho1]; apply evq_qob|].
+  repeat constructor.
+Qed.
+
+Theorem enabled_classes_step : forall cfg s tr ev a s' o,
+  Trace cfg s tr -> no_fuel tr -> ostep cfg s ev a = (s', o) ->
+  Forall (classes_ok cfg ev s) o /\ en_rel cfg ev s s'.
+Proof.
+  intros cfg s tr ev a s' o Ht Hnf Hstep.
+  pose proof (trace_inv _ _ _ Ht) as Hi.
+  destruct (trace_good _ _ _ Ht) as [Hf|[Hg _]]; [contradiction|].
+  destruct (step_P cfg ev (fun x => pend_ok (Some ev) x /\ en_rel cfg ev s x) (classes_ok cfg ev s))
+    with (s := s) (a := a) (s' := s') (o := o) as (Hq & s1 & [_ Hp1] & Hs); try assumption.
+  - intros x ob x' Hu [Hl Hw] [Hp He].
+    destruct (ustep_pend_en _ _ _ _ _ Hu Hp) as [Hp' Hen].
+    split; [split; [exact Hp'|eapply en_rel_step; eauto]|].
+    destruct Hu.
+    + apply qob_classes_ok. auto.
+    + eapply started_classes_ok; eauto.
+    + subst ob. constructor; [|eapply started_classes_ok; eauto].
+      cbn [classes_ok]. destruct He as [He|He]; [left; congruence|right; rewrite <- H4; exact He].
+    + subst ob. destruct n; repeat constructor.
+    + subst ob. apply Forall_app. split; [apply qob_classes_ok; apply solob_qob; auto|destruct n; repeat constructor].
+    + subst ob. repeat constructor.
+    + subst ob. destruct n; repeat constructor.
+    + subst ob. repeat constructor.
+    + subst ob. repeat constructor.
+    + subst ob. repeat constructor.
+    + subst ob. repeat constructor.
+  - split; [apply pend_ok_none; exact Hg|left; reflexivity].
+  - split; [exact Hq|]. destruct Hs as [-> |(t & ->)]; exact Hp1.
+Qed.
+
+(* ---------- 7. nothing enabled: no event data is sent ------------------------------------------------ *)
+
+Definition is_enable_ev (ev : oevent) : bool :=
+  match ev with ERx _ _ _ (DOk _ fn RvOk _) => fn =? 20 | _ => false end.
+
+(* an unsolicited response carrying data is the outstanding one of state s *)
+Definition only_resend (s : ostate) (o : oobs) : Prop :=
+  match o with
+  | OTx _ b =>
+      is_unsol b = true -> (4 < length b)%nat ->
+      exists r ret dl, s_control s = CUnsolWait r false ret dl /\ b = response_bytes r (s_unsol_buf s)
+  | _ => True
+  end.
+
+Lemma qob_only_resend : forall s l, Forall qob l -> Forall (only_resend s) l.
+Proof.
+  intros s l H. eapply Forall_impl; [|exact H]. intros o [Ho| ->]; [|exact I].
+  destruct o; try exact I. cbn [only_resend]. intros Hu. rewrite (solob_not_unsol _ _ Ho) in Hu. discriminate.
+Qed.
+
+Lemma started_null_only_resend : forall cfg s0 s s' buf o,
+  started cfg s s' true 0 buf o -> Forall (only_resend s0) o.
+Proof.
+  intros cfg s0 s s' buf o (r & o1 & -> & Ho1 & _ & _ & Hsz & _).
+  apply Forall_app. split; [apply qob_only_resend; eapply Forall_impl; [|exact Ho1]; apply evq_qob|].
+  constructor; [|repeat constructor]. cbn [only_resend]. intros _ Hl.
+  rewrite response_bytes_len in Hl by exact Hsz. lia.
+Qed.
+
+Definition dis_inv (ev : oevent) (s x : ostate) : Prop :=
+  pend_ok (Some ev) x /\ any_enabled x = false /\
+  forall r n ret dl, s_control x = CUnsolWait r n ret dl ->
+    n = true \/ (exists ret0 dl0, s_control s = CUnsolWait r false ret0 dl0 /\ s_unsol_buf x = s_unsol_buf s).
+
+Lemma any_enabled_eq : forall x x', s_enabled x' = s_enabled x -> any_enabled x' = any_enabled x.
+Proof. intros x x' H. unfold any_enabled. rewrite H. reflexivity. Qed.
+
+Theorem disable_stops : forall cfg s tr ev a s' o,
+  Trace cfg s tr -> no_fuel tr -> any_enabled s = false -> is_enable_ev ev = false ->
+  ostep cfg s ev a = (s', o) ->
+  any_enabled s' = false /\ Forall (only_resend s) o.
+Proof.
+  intros cfg s tr ev a s' o Ht Hnf Hany Hev Hstep.
+  pose proof (trace_inv _ _ _ Ht) as Hi.
+  destruct (trace_good _ _ _ Ht) as [Hf|[Hg _]]; [contradiction|].
+  destruct (step_P cfg ev (dis_inv ev s) (only_resend s))
+    with (s := s) (a := a) (s' := s') (o := o) as (Hq & s1 & (_ & Hp1 & _) & Hs); try assumption.
+  - intros x ob x' Hu [Hl Hw] (Hp & Ha & Hwt).
+    destruct (ustep_pend_en _ _ _ _ _ Hu Hp) as [Hp' Hen].
+    assert (Ha' : any_enabled x' = false).
+    { destruct (en_step_cases _ _ _ _ Hp Hen) as [E|(f & b & y & c & fn & h & r & -> & _ & Hf & E)].
+      - rewrite (any_enabled_eq _ _ E). exact Ha.
+      - destruct Hf as [-> | ->]; [discriminate Hev|].
+        unfold any_enabled. rewrite E, (any_enabled_false _ Ha). cbn [N.eqb Pos.eqb].
+        rewrite set_classes_false_none. reflexivity. }
+    assert (Hidle : s_control x' = CIdle -> dis_inv ev s x').
+    { intros Hc. split; [exact Hp'|]. split; [exact Ha'|]. intros r n ret dl Hc'. congruence. }
+    destruct Hu.
+    + split; [|apply qob_only_resend; auto]. split; [exact Hp'|]. split; [exact Ha'|].
+      unfold qv in H1. intros r n ret dl Hc'. destruct H2 as [Hcs|[Hu Hu']].
+      * rewrite Hcs in Hc'. destruct (Hwt _ _ _ _ Hc') as [E|(r0 & d0 & E1 & E2)]; [left; exact E|right].
+        exists r0, d0. split; [exact E1|congruence].
+      * rewrite Hc' in Hu'. discriminate.
+    + split; [|eapply started_null_only_resend; eauto]. split; [exact Hp'|]. split; [exact Ha'|].
+      destruct H2 as (r & o1 & _ & _ & _ & _ & _ & Hc & _). intros r' n ret dl Hc'. rewrite Hc in Hc'.
+      inversion Hc'; subst. left. reflexivity.
+    + congruence.
+    + split; [apply Hidle; assumption|]. subst ob. destruct n; repeat constructor.
+    + split; [apply Hidle; assumption|]. subst ob. apply Forall_app.
+      split; [apply qob_only_resend; apply solob_qob; auto|destruct n; repeat constructor].
+    + subst ob x'. rewrite H in Hw. destruct Hw as (Hf & _ & Hn). split.
+      * split; [exact Hp'|]. split; [exact Ha'|]. intros r' n' ret' dl' Hc'. cbn in Hc'. inversion Hc'; subst.
+        destruct (Hwt _ _ _ _ H) as [E|(r0 & d0 & E1 & E2)]; [left; exact E|right; exists r0, d0; split; [exact E1|exact E2]].
+      * constructor; [exact I|]. constructor; [exact I|]. unfold repeat_unsolicited. constructor; [|constructor].
+        cbn [only_resend]. intros _ Hlen.
+        destruct (Hwt _ _ _ _ H) as [E|(r0 & d0 & E1 & E2)].
+        -- subst n. destruct Hn as (_ & Hsz & _). rewrite response_bytes_len in Hlen by exact Hsz. lia.
+        -- exists resp, r0, d0. split; [exact E1|]. rewrite E2. reflexivity.
+    + split; [apply Hidle; assumption|]. subst ob. destruct n; repeat constructor.
+    + subst ob x'. split; [apply Hidle; reflexivity|repeat constructor].
+    + subst ob x'. split; [apply Hidle; exact H|repeat constructor].
+    + subst ob x'. split; [apply Hidle; reflexivity|repeat constructor].
+    + subst ob x'. split; [|repeat constructor]. split; [exact Hp'|]. split; [exact Ha'|exact Hwt].
+  - split; [apply pend_ok_none; exact Hg|]. split; [exact Hany|].
+    intros r n ret dl Hc. destruct n; [left; reflexivity|right]. exists ret, dl. split; [exact Hc|reflexivity].
+  - split; [|exact Hq]. destruct Hs as [-> |(t & ->)]; exact Hp1.
+Qed.
